@@ -23,10 +23,10 @@ var substPool = []string{" {", " }", ";", " \"", " leaf", " type", " x", " 256",
 // corpus: the repository's own test modules and the fixtures.
 func loadCorpus() map[string]string {
 	out := map[string]string{}
-	filepath.Walk("/repo/parser/testdata", func(path string, info os.FileInfo, err error) error {
+	filepath.Walk(core.RepoDir+"/parser/testdata", func(path string, info os.FileInfo, err error) error {
 		if err == nil && !info.IsDir() && strings.HasSuffix(path, ".yang") {
 			if b, e := os.ReadFile(path); e == nil && len(b) < 20000 {
-				out["repo:"+strings.TrimPrefix(path, "/repo/parser/testdata/")] = string(b)
+				out["repo:"+strings.TrimPrefix(path, core.RepoDir+"/parser/testdata/")] = string(b)
 			}
 		}
 		return nil
@@ -121,6 +121,36 @@ func specials() []special {
 		{Name: "leafref-no-path", Shape: "pathological", Text: hdr("a") + " leaf x { type leafref; } }"},
 		{Name: "identityref-no-base", Shape: "pathological", Text: hdr("a") + " leaf x { type identityref; } }"},
 		{Name: "bits-no-bit", Shape: "pathological", Text: hdr("a") + " leaf x { type bits; } }"},
+		{Name: "leafref-to-container", Shape: "pathological", Text: hdr("a") + " container c { leaf i { type string; } } leaf x { type leafref { path \"../c\"; } } }"},
+		{Name: "leafref-to-list", Shape: "pathological", Text: hdr("a") + " list l { key k; leaf k { type string; } } leaf x { type leafref { path \"../l\"; } } }"},
+		{Name: "leafref-to-choice-member", Shape: "pathological", Text: hdr("a") + " choice c { leaf i { type string; } } leaf x { type leafref { path \"../i\"; } } }"},
+		{Name: "deviate-max-elements-on-leaf", Shape: "pathological", Text: hdr("a") + " leaf x { type string; } deviation /x { deviate add { max-elements 3; } } }"},
+		{Name: "deviate-min-elements-on-leaf", Shape: "pathological", Text: hdr("a") + " leaf x { type string; } deviation /x { deviate add { min-elements 3; } } }"},
+		{Name: "deviate-unique-on-leaf", Shape: "pathological", Text: hdr("a") + " leaf x { type string; } deviation /x { deviate add { unique \"y\"; } } }"},
+		{Name: "deviate-default-on-container", Shape: "pathological", Text: hdr("a") + " container x { } deviation /x { deviate add { default \"y\"; } } }"},
+		{Name: "deviate-units-on-container", Shape: "pathological", Text: hdr("a") + " container x { } deviation /x { deviate replace { units \"y\"; } } }"},
+		{Name: "deviate-mandatory-on-list", Shape: "pathological", Text: hdr("a") + " list x { key k; leaf k { type string; } } deviation /x { deviate add { mandatory true; } } }"},
+		{Name: "deviate-must-on-choice", Shape: "pathological", Text: hdr("a") + " choice x { leaf k { type string; } } deviation /x { deviate add { must \"k\"; } } }"},
+		{Name: "deviate-type-on-container", Shape: "pathological", Text: hdr("a") + " container x { } deviation /x { deviate replace { type string; } } }"},
+		{Name: "deviate-config-on-rpc", Shape: "pathological", Text: hdr("a") + " rpc x { } deviation /x { deviate add { config false; } } }"},
+		{Name: "grouping-uses-itself-directly", Shape: "cycle", Text: hdr("a") + " grouping g { uses g; } uses g; }"},
+		{Name: "grouping-uses-itself-unused", Shape: "cycle", Text: hdr("a") + " grouping g { uses g; } leaf x { type string; } }"},
+		{Name: "grouping-mutual-direct", Shape: "cycle", Text: hdr("a") + " grouping g { uses h; } grouping h { uses g; } uses g; }"},
+		{Name: "submodule-includes-itself", Shape: "cycle", Main: "a", Mods: map[string]string{"a": hdr("a") + " include s; leaf x { type string; } }",
+			"s": "submodule s { belongs-to a { prefix a; } include s; leaf y { type string; } }"}},
+		{Name: "submodules-include-each-other", Shape: "cycle", Main: "a", Mods: map[string]string{"a": hdr("a") + " include s; leaf x { type string; } }",
+			"s": "submodule s { belongs-to a { prefix a; } include t; leaf y { type string; } }",
+			"t": "submodule t { belongs-to a { prefix a; } include s; leaf z { type string; } }"}},
+		{Name: "augment-into-leaf", Shape: "pathological", Text: hdr("a") + " leaf x { type string; } augment \"/x\" { leaf y { type string; } } }"},
+		{Name: "augment-uses-target", Shape: "pathological", Text: hdr("a") + " container c { } augment \"/c\" { uses nope; } }"},
+		{Name: "refine-into-leaf-child", Shape: "pathological", Text: hdr("a") + " grouping g { leaf l { type string; } } uses g { refine \"l/x\" { default \"x\"; } } }"},
+		{Name: "uses-augment-into-leaf", Shape: "pathological", Text: hdr("a") + " grouping g { leaf l { type string; } } uses g { augment \"l\" { leaf y { type string; } } } }"},
+		{Name: "key-is-container", Shape: "pathological", Text: hdr("a") + " list l { key \"c\"; container c { } } }"},
+		{Name: "key-is-leaf-list", Shape: "pathological", Text: hdr("a") + " list l { key \"c\"; leaf-list c { type string; } } }"},
+		{Name: "unique-names-container", Shape: "pathological", Text: hdr("a") + " list l { key k; unique \"c\"; leaf k { type string; } container c { } } }"},
+		{Name: "identityref-unknown-prefix", Shape: "pathological", Text: hdr("a") + " leaf x { type identityref { base zz:i; } } }"},
+		{Name: "type-unknown-prefix", Shape: "pathological", Text: hdr("a") + " leaf x { type zz:t; } }"},
+		{Name: "uses-unknown-prefix", Shape: "pathological", Text: hdr("a") + " uses zz:g; }"},
 		{Name: "choice-in-choice-direct", Shape: "pathological", Text: hdr("a") + " choice c { choice d { leaf x { type string; } } } }"},
 	}
 }
@@ -196,7 +226,7 @@ func planC14(tier string, seed int64) (*core.Plan, error) {
 			mods := map[string]string{}
 			// imports / includes of the corpus module resolve against its directory
 			if strings.HasPrefix(m.name, "repo:") {
-				dir := filepath.Dir("/repo/parser/testdata/" + strings.TrimPrefix(m.name, "repo:"))
+				dir := filepath.Dir(core.RepoDir+"/parser/testdata/" + strings.TrimPrefix(m.name, "repo:"))
 				if ents, err := os.ReadDir(dir); err == nil {
 					for _, e := range ents {
 						if strings.HasSuffix(e.Name(), ".yang") {
